@@ -20,10 +20,13 @@ def setup():
 def place_demo(d, name):
     demo = open(os.path.join(d, 'demo.rs')).read()
     if name.startswith('C06'):
-        p = os.path.join(WT, 'src/storage/secondary/block.rs')
+        # the C06 demos are #[cfg(test)] modules appended to a source file named in their demo.md
+        target, filt = {'C06-1': ('src/storage/secondary/block.rs', 'c06_demo_1'), 'C06-2': ('src/storage/secondary/block.rs', 'c06_demo_2'),
+                        'C06-3': ('src/storage/secondary/block/char_block_iterator.rs', 'c06_full_width'),
+                        'C06-4': ('src/storage/secondary/block/rle_block_iterator.rs', 'c06_rle')}[name]
+        p = os.path.join(WT, target)
         open(p, 'a').write('\n' + demo)
-        n = name[-1]
-        return f'cargo test --offline -j 8 --lib c06_demo_{n}', lambda: sh('git checkout -- src/storage/secondary/block.rs')
+        return f'cargo test --offline -j 8 --lib {filt}', lambda: sh(f'git checkout -- {target}')
     t = 'seeded_' + name.replace('-', '_').lower()
     open(os.path.join(WT, 'tests', t + '.rs'), 'w').write(demo)
     return f'cargo test --offline -j 8 --test {t}', lambda: os.remove(os.path.join(WT, 'tests', t + '.rs'))
